@@ -23,7 +23,7 @@ CHECKS.update({
          "single load year (what the manager passes): 2019 and the leap year 2020 both proved against their closed forms; a LIST of load years is refuted by a witness (observation, outside the quantifier)", "5 C08"),
 })
 CHECKS.update({
- "C03": ("Coq: spacing/row arithmetic for all rational lot sizes, lattice theorem on coordinates.rectangle REGENERATED from the source, soundness of the field check; every domain generator (rectangular, bi_rectangular, bi_rectangle_nested, zoned_rectangle_domain, bi_rectangle_zoned_nested, square_and_near_square) is translated to Gallina on each run, compared field by field with the real generators on exact inputs, and the proved-sound check is evaluated on the translated generators inside Coq",
+ "C03": ("Coq: spacing/row arithmetic for all rational lot sizes, lattice theorem on coordinates.rectangle REGENERATED from the source, the regenerated near-square list (i x i then i x (i+1), counts non-decreasing, for every index range), soundness of the field check; every domain generator (rectangular, bi_rectangular, bi_rectangle_nested, zoned_rectangle_domain, bi_rectangle_zoned_nested, square_and_near_square) is translated to Gallina on each run, compared field by field with the real generators on exact inputs, and the proved-sound check is evaluated on the translated generators inside Coq",
          "the link 'every field produced by the generator loops is such a lattice' is established per input by evaluation in Coq, not by an unbounded theorem; floats compared with 1e-9 m", "5 C03"),
  "C04": ("Coq: iff-characterisation of what remove_cutout keeps for ANY classifier (sound + complete); over the whole polygonal_land_constraint model (grid from the regenerated bi_rectangle_nested, both cut-outs, stable re-ordering) every borehole of every candidate field is placed, no placeable grid borehole is dropped, every list is sorted by count; exact equality of the model with the real function on random rational polygons; the same oracle on the design object built through the manager",
          "classifier correctness is C16; focal_lt (exact tolerance test) validated by correspondence, not proved equivalent to the float test", "5 C04"),
